@@ -24,6 +24,41 @@ Check C16_ticks_follow_clock :
   (once = true -> length (i_log c) <= 1).
 Print Assumptions C16_ticks_follow_clock.
 
+(* ------------------------------------------------------------------ timeout and delay *)
+(* Model/ConcTimeout.v: the source thread follows a script of (gap, value, consumer time) and an optional terminal; the
+   machine processes "the source's next call" and "the armed deadline" in time order, cancelling / re-arming the deadline
+   where timeout.rs does.  For EVERY period, script and ending its (time, event) log is the definition's: items pass
+   through at their arrival times; TimedOut exactly d after the sink of the first item followed by a longer silence -
+   and never otherwise; nothing afterwards.  spec_timeout / spec_delay are extracted and are the oracle ./vp applies to
+   the implementation's (virtual time, event) pairs. *)
+From RX Require Import ConcTimeout.
+From RXP Require Import TimeoutProofs.
+Theorem C16_timeout_follows_clock :
+  forall d script en fuel, length script + 2 <= fuel ->
+  x_log (xrun d fuel (xinit script en)) = spec_timeout d 0 false script en.
+Proof. exact timeout_follows_clock. Qed.
+Check C16_timeout_follows_clock :
+  forall d script en fuel, length script + 2 <= fuel ->
+  x_log (xrun d fuel (xinit script en)) = spec_timeout d 0 false script en.
+Print Assumptions C16_timeout_follows_clock.
+
+(* delay(d): every item is handed on exactly d after its next() began, in the source's order *)
+Theorem C16_delay_by_d :
+  forall d script ret,
+  Forall (fun x : nat * nat * nat => snd (fst x) = fst (fst x) + d) (spec_delay d ret script) /\
+  map snd (spec_delay d ret script) = map x_val script.
+Proof. exact delay_by_d. Qed.
+Check C16_delay_by_d :
+  forall d script ret,
+  Forall (fun x : nat * nat * nat => snd (fst x) = fst (fst x) + d) (spec_delay d ret script) /\
+  map snd (spec_delay d ret script) = map x_val script.
+Print Assumptions C16_delay_by_d.
+
+Example C16_timeout_example :
+  spec_timeout 10 0 false [ {| x_gap := 3; x_val := 1; x_busy := 0 |}; {| x_gap := 9; x_val := 2; x_busy := 4 |}; {| x_gap := 12; x_val := 3; x_busy := 0 |} ] (Some (1, false))
+  = [(3, XItem 1); (12, XItem 2); (26, XTimeout)].
+Proof. reflexivity. Qed.
+
 Example C16_example :
   let c := irun [IWake; ICheck; IEmit; IWake; ICheck; IEmit; IWake; ICheck; IEmit] (iinit 7 false) in
   i_log c = [(0, 7); (1, 14); (2, 21)].
